@@ -528,8 +528,25 @@ func modelCopy(c call, t tree, s, d arg) outcome {
 		return conflict(d.P)
 	}
 	withSrc := func(o outcome, except string) outcome {
-		o.HasSrc, o.Src, o.SrcExcept = true, s.P, except
+		if ks != 'm' {
+			o.HasSrc, o.Src, o.SrcExcept = true, s.P, except
+		}
 		return o
+	}
+	if s.P == d.P {
+		// something onto itself (whatever the spelling, existing or not): cp fails ("are the same file" / "No such
+		// file"), the repository returns nil: the result is not consulted, the tree must not change - except that
+		// CopyToDirectory may create its destination first, which then is a directory copied into itself: silent.
+		switch {
+		case ks == 'f' && d.Sep, c.Op == "CopyToFile" && ks == 'd':
+			return withSrc(conflict(d.P), noExcept)
+		case ks != 'f' && (c.Op == "CopyToDirectory" || (ks == 'd' && c.A != c.B)):
+			// a directory into itself (Copy("a", "a/") resolves to a/a)
+			return withSrc(silent(d.P), join(d.P, base(s.P)))
+		}
+		o := okTree(t, d.P)
+		o.ConsultResult = false
+		return withSrc(o, noExcept)
 	}
 	switch c.Op {
 	case "CopyToFile":
@@ -562,11 +579,6 @@ func modelCopy(c call, t tree, s, d arg) outcome {
 		}
 	}
 	// the source exists from here on
-	if c.A == c.B { // onto itself, same spelling: result silent, tree unchanged
-		o := okTree(t, d.P)
-		o.ConsultResult = false
-		return withSrc(o, noExcept)
-	}
 	n := t.clone()
 	var q string // resolved destination
 	switch {
@@ -617,13 +629,17 @@ func modelMove(t tree, s, d arg, sameSpelling bool) outcome {
 	if ks == 'f' && s.Sep {
 		return conflict(dest...)
 	}
-	if ks == 'm' {
-		return errTree(t, "notfound", dest...)
-	}
-	if sameSpelling {
+	if sameSpelling || s.P == d.P {
+		// onto itself: mv fails ("are the same file"), the repository returns nil: result not consulted, tree unchanged
+		if ks == 'f' && d.Sep {
+			return conflict(dest...)
+		}
 		o := okTree(t, dest...)
 		o.ConsultResult = false
 		return o
+	}
+	if ks == 'm' {
+		return errTree(t, "notfound", dest...)
 	}
 	unchangedErr := func() outcome { return errTree(t, "", dest...) }
 	moveTo := func(q string) outcome {
@@ -757,9 +773,17 @@ func callShape(c call, t tree) string {
 	s := c.Op + "(" + shapeOf(t, a)
 	if c.isTwoArg() {
 		b := parseArg(c.B)
-		s += "," + shapeOf(t, b)
-		if r := relationOf(t, c, a, b); r != "" {
-			s += ";" + r
+		switch {
+		// one root cause whatever the other argument is: the other argument's shape is not part of the class
+		case a.Empty && !b.Empty:
+			s = c.Op + "(empty,any"
+		case b.Empty && !a.Empty:
+			s = c.Op + "(any,empty"
+		default:
+			s += "," + shapeOf(t, b)
+			if r := relationOf(t, c, a, b); r != "" {
+				s += ";" + r
+			}
 		}
 	}
 	switch c.Op {
